@@ -51,6 +51,11 @@ CHECKS["C05"] = (TV, "translation validation: symbolic execution (SSA->SMT, z3) 
     "effects in the log. Pass 2: inside the generated package the compiled YieldFrom form and the compiled 'for v := range it { Yield(v) }' form of the same body are run on the "
     "same symbolic arguments and their logs asserted equal. Program dimension sampled; K advances; recursion depth <= 3 (quick).", "§6 C05")
 
+CHECKS["C03"] = (TV, "translation validation: symbolic execution (SSA->SMT, z3) on a declaration/shadowing/closure-biased corpus with one distinct symbolic term per declaration",
+    "Corpus biased to declarations: x,y declared, shadowed and updated at function level, in blocks, if/else arms, for/switch/type-switch initialisers, range variables and case "
+    "clauses, with reader/writer closures created before yields and called after. Every declaration is initialised from a distinct symbolic term, so a reference bound to the "
+    "wrong variable changes the yielded term and the solver returns a distinguishing input. Two-world log equality as in C01. Program dimension sampled.", "§6 C03")
+
 NA = {
     "C11": "compiler acceptance/buildability is decided by the compiler pipeline itself (go/packages, go/types, reflection-based AST rewriting, printer, file system); it cannot be encoded by an SSA->SMT translator and has no symbolic dimension once a program is fixed — enumeration of concrete compiler runs would be a different technique (DESIGN §7)",
     "C15": "byte-identical output across runs/configurations is a statement about repeated process runs, map iteration in the compiler and leftovers on disk; no symbolic inputs and the code is not encodable (DESIGN §7)",
